@@ -543,6 +543,61 @@ def reply_forms(d):
     return later
 
 
+def template_sites(d):
+    """per quote!/parse_quote! template: literal identifiers in path-root position (not after `::` or `#`, followed by `::`), literal
+    identifiers declared in a generic-parameter list, and whether some generic-parameter list of the template splices user generics"""
+    rows = []
+    for fname, f in sorted(d.files.items()):
+        if fname.startswith("rt:"):
+            continue
+        for fn in f.get("fns", []):
+            for n, mac in enumerate(m for m in fn["macros"] if m["name"] in ("quote", "parse_quote")):
+                t = mac["tokens"]
+                roots, params, scoped = [], [], False
+
+                def is_p(x, ch):
+                    return x is not None and x[0] == "P" and x[1] == ch
+                for i, x in enumerate(t):
+                    if x[0] != "I":
+                        continue
+                    prev = t[i - 1] if i > 0 else None
+                    prev2 = t[i - 2] if i > 1 else None
+                    nxt = t[i + 1] if i + 1 < len(t) else None
+                    nxt2 = t[i + 2] if i + 2 < len(t) else None
+                    if is_p(nxt, ":") and is_p(nxt2, ":") and not (is_p(prev, ":") and is_p(prev2, ":")) and not is_p(prev, "#"):
+                        roots.append(x[1])
+                i = 0
+                while i < len(t):
+                    x = t[i]
+                    opens = is_p(x, "<") and i > 0 and t[i - 1][0] == "I" and (
+                        t[i - 1][1] == "impl" or (i > 1 and t[i - 2][0] == "I" and t[i - 2][1] in ("fn", "trait", "struct", "enum", "type")))
+                    if not opens:
+                        i += 1
+                        continue
+                    depth, j = 1, i + 1
+                    while j < len(t) and depth > 0:
+                        y = t[j]
+                        pj = t[j - 1]
+                        if is_p(y, "<"):
+                            depth += 1
+                        elif is_p(y, ">") and not is_p(pj, "-"):
+                            depth -= 1
+                        elif is_p(y, "#"):
+                            scoped = True
+                        elif depth == 1 and y[0] == "I" and (is_p(pj, "<") or is_p(pj, ",") or is_p(pj, "*")):
+                            params.append(y[1])
+                        j += 1
+                    i = j
+                if roots or params:
+                    rows.append(("%s:%s::%s#%d" % (fname, fn["container"], fn["name"], n), sorted(set(roots)), params, scoped))
+    # a nested item inherits the generics of the template it sits in: one flag per emitting function
+    by_fn = {}
+    for site, roots, params, scoped in rows:
+        key = site.split("#")[0]
+        by_fn[key] = by_fn.get(key, False) or scoped
+    return [(site, roots, params, by_fn[site.split("#")[0]]) for site, roots, params, scoped in rows]
+
+
 def kt(rows, val):
     return llist("(.%s, %s)" % (KINDS[k], val(v)) for k, v in rows)
 
@@ -580,6 +635,7 @@ def generate(dump_lines):
     prule = published_rule(d)
     conv = into_response_tables(d)
     later = reply_forms(d)
+    sites = template_sites(d)
 
     o = []
     o.append("import Sylvia.Model.Kinds")
@@ -614,6 +670,10 @@ def generate(dump_lines):
     o.append("def convertible : List Sylvia.Runtime.MsgKind := %s" % llist("." + k for k in conv))
     o.append("/-- does `ReplyData::merge` take the data parameter from a later method when the first one has none? -/")
     o.append("def replyDataFromLater : Bool := %s" % ("true" if later else "false"))
+    o.append("/-- code templates: (site, literal identifiers in path-root position, literal identifiers declared as generic parameters,")
+    o.append("    does the emitting function splice user generics into a generic-parameter list) -/")
+    o.append("def templateSites : List (Str × List Str × List Str × Bool) := %s" % llist(
+        "(%s, %s, %s, %s)" % (lstr(a), llist(lstr(x) for x in b), llist(lstr(x) for x in cc), "true" if e else "false") for a, b, cc, e in sites))
     o.append("def epDefaults : List Kind := %s" % llist("." + KINDS[k] for k in (ep.get("defaults") or []) if k in KINDS))
     o.append("")
     o.append("end Extracted")
